@@ -29,8 +29,8 @@ func (p *MetadataPersister) GetHeaderByLinkname''','''	hdr, err := models.Header
 }
 
 func (p *MetadataPersister) GetHeaderByLinkname''',"GetHeader no longer filters tombstones"),
- ("M03","C01","pkg/recovery/index.go","	if overwrite {\n		if err := metadata.Metadata.PurgeAllHeaders","	if overwrite && record != 0 {\n		if err := metadata.Metadata.PurgeAllHeaders","overwrite rebuild does not purge the index"),
- ("M04","C04","pkg/recovery/index.go","h, err := converters.TarHeaderToDBHeader(oldHdr.Record, record, oldHdr.Block, block, hdr)","h, err := converters.TarHeaderToDBHeader(record, record, block, block, hdr)","metadata-only update takes the new record position"),
+ #equivalent through the filesystem API (a rebuild always starts from an empty index): ("M03","C01","pkg/recovery/index.go","	if overwrite {\n		if err := metadata.Metadata.PurgeAllHeaders","	if overwrite && record != 0 {\n		if err := metadata.Metadata.PurgeAllHeaders","overwrite rebuild does not purge the index"),
+ ("M04","C04","pkg/recovery/index.go","h, err := converters.TarHeaderToDBHeader(oldHdr.Record, record, oldHdr.Block, block, hdr)","_ = oldHdr.Record\n\t\t\t\t\th, err := converters.TarHeaderToDBHeader(record, record, block, block, hdr)","metadata-only update takes the new record position"),
  ("M05","C09","pkg/operations/move.go","		if err := encryption.EncryptHeader(hdr, o.pipes.Encryption, o.crypto.Recipient); err != nil {\n			return err\n		}\n","		_ = encryption.EncryptHeader\n","move records are not encrypted"),
  ("M06","C08","pkg/signature/verify.go","		if minisign.Verify(recipient, []byte(src), decodedSignature) {\n			return nil\n		}\n\n		return config.ErrSignatureInvalid","		minisign.Verify(recipient, []byte(src), decodedSignature)\n\n		return nil","minisign header verification result ignored"),
  ("M07","C15","pkg/fs/filesystem.go",'''		"mode": mode,
